@@ -474,6 +474,14 @@ VP_HARNESS(h_enc_counters)
     e->setStreamId(s->streamId);
     VerifAccess::seq(*e) = s->start;
     uint16_t last = s->start;
+    // messages are told apart by their (distinct, non-zero) timestamps: every message or segment of packet i must sit in a
+    // frame whose header announces packet i's message type
+    for (unsigned i = 0; i < K; ++i)
+    {
+        vp_assume(s->ts[i] != 0);
+        for (unsigned j = 0; j < i; ++j)
+            vp_assume(s->ts[i] != s->ts[j]);
+    }
     for (int call = 0; call < 2; ++call)
     {
         Frames* fr = doEncode(*e, pk);
@@ -488,6 +496,16 @@ VP_HARNESS(h_enc_counters)
                 vp_assert(fb[0] == s->version && vp_be16(fb.data() + 2) == s->deviceId && fb[5] == s->streamId, "C09: frame header carries the batch's version and the configured device id and stream id");
                 vp_assert(vp_be16(fb.data() + 6) == static_cast<uint16_t>(last + 1), "C09: sequence counter is one greater (mod 65536) than that of the previously emitted frame");
                 last = vp_be16(fb.data() + 6);
+                size_t pos = 8;
+                for (unsigned m = 0; m < 4; ++m)
+                    if (pos + 16 <= fb.size() && vp_be64(fb.data() + pos) != 0)
+                    {
+                        const uint64_t ts = vp_be64(fb.data() + pos);
+                        for (unsigned i = 0; i < K; ++i)
+                            if (LEN[i] > 0 && ts == s->ts[i])
+                                vp_assert(fb[4] == TYP[i], "C09: frame header carries the message type of its messages");
+                        pos += 16 + vp_be16(fb.data() + pos + 14);
+                    }
             }
         vp_assert(e->getSequenceCounter() == last, "C09: the reported counter equals that of the last frame emitted");
     }
